@@ -58,13 +58,47 @@ impl Judged {
     }
 }
 
+/// A graph on which every pattern of the grammar has matches: all labels, properties, and both
+/// edge types between every ordered pair of its three nodes (self-loops included).
+fn rich_graph() -> QGraph {
+    let mut txt = String::from("(0:A{p:1,s:x}) (1:B{p:2}) (2:A:B{p:1,s:x})");
+    for a in 0..3 {
+        for b in 0..3 {
+            txt.push_str(&format!(" {a}-[K{{w:1}}]->{b} {a}-[L{{w:2}}]->{b}"));
+        }
+    }
+    QGraph::parse_pretty(&txt).unwrap()
+}
+
+static EXPRESSIBLE: std::sync::Mutex<Option<HashMap<(Lang, String), bool>>> = std::sync::Mutex::new(None);
+
+/// Does the engine answer `text` at all (on the rich reference graph)?  An `Err` on another graph
+/// for a text that is answered here cannot mean "the language does not cover this question".
+fn expressible(lang: Lang, text: &str) -> bool {
+    let key = (lang, text.to_string());
+    if let Some(v) = EXPRESSIBLE.lock().unwrap().get_or_insert_with(HashMap::new).get(&key).copied() {
+        return v;
+    }
+    let dbi = cached_db(&rich_graph());
+    let s = dbi.0.session();
+    let v = matches!(exec_session(&s, lang, text), Exec::Rows(_));
+    EXPRESSIBLE.lock().unwrap().get_or_insert_with(HashMap::new).insert(key, v);
+    v
+}
+
 fn needs_alt(g: &QGraph, q: &Query) -> bool {
     g.edges.iter().any(|e| e.src == e.dst) && q.paths.iter().any(|p| p.hops.iter().any(|h| h.dir == Dir::Both))
 }
 
 fn judge_text(g: &QGraph, ids: &IdMap, s: &Session, q: &Query, lang: Lang, text: &str) -> Judged {
     match exec_session(s, lang, text) {
-        Exec::Err(e) => Judged::EngineErr(e),
+        Exec::Err(e) => {
+            if expressible(lang, text) {
+                Judged::Bad { kind: "spurious-error", detail: format!("Err although the same text is answered on the reference graph: {}", e.lines().next().unwrap_or("")), rows: vec![] }
+            } else {
+                Judged::EngineErr(e)
+            }
+        }
         Exec::Panic(p) => Judged::Bad { kind: "panic", detail: format!("panic: {p}"), rows: vec![] },
         Exec::Rows(rows) => {
             let want = eval(g, ids, q, EvalOpts { loop_twice: true });
@@ -115,7 +149,7 @@ fn judge(g: &QGraph, ids: &IdMap, s: &Session, q: &Query, lang: Lang) -> Judged 
 /// Returns (differ, reportable).
 fn disagree(g: &QGraph, ids: &IdMap, q: &Query, a: &Judged, b: &Judged) -> (bool, bool) {
     let (Some(ra), Some(rb)) = (a.rows(), b.rows()) else { return (false, false) };
-    if a.kind() == Some("panic") || b.kind() == Some("panic") {
+    if matches!(a.kind(), Some("panic" | "spurious-error")) || matches!(b.kind(), Some("panic" | "spurious-error")) {
         return (false, false);
     }
     let want = eval(g, ids, q, EvalOpts::default());
@@ -138,7 +172,18 @@ fn disagree(g: &QGraph, ids: &IdMap, q: &Query, a: &Judged, b: &Judged) -> (bool
 
 /// (graph, lang(s), query text, panic?) -> does the failure reproduce.  Shared by all workers:
 /// minimised witnesses are tiny and recur constantly.
-static MEMO: std::sync::Mutex<Option<HashMap<(String, String, String, bool), bool>>> = std::sync::Mutex::new(None);
+static MEMO: std::sync::Mutex<Option<HashMap<(String, String, String, u8), bool>>> = std::sync::Mutex::new(None);
+
+/// A failing case only shrinks to a case of the same class: panic, spurious error, or deviation
+/// from the reference (within the last class the kind of the minimal case is what gets reported).
+fn class_of(kind: &str) -> u8 {
+    match kind {
+        "panic" => 0,
+        "spurious-error" => 1,
+        "language-disagreement" => 3,
+        _ => 2,
+    }
+}
 
 thread_local! {
     /// loaded databases of recently used (minimised) graphs; queries are read-only, so reuse is safe
@@ -162,7 +207,7 @@ impl Minimiser {
     /// `fails(g, q)` re-evaluates the failure on a fresh database.
     fn fails(&mut self, g: &QGraph, q: &Query, langs: &[Lang], kind: &'static str) -> bool {
         let Some(text) = render(q, Lang::Gql) else { return false };
-        let key = (g.pretty(), langs.iter().map(|l| l.name()).collect::<Vec<_>>().join("+"), text, kind == "panic");
+        let key = (g.pretty(), langs.iter().map(|l| l.name()).collect::<Vec<_>>().join("+"), text, class_of(kind));
         if let Some(v) = MEMO.lock().unwrap().get_or_insert_with(HashMap::new).get(&key).copied() {
             return v;
         }
@@ -174,7 +219,7 @@ impl Minimiser {
             // any deviation keeps the case alive (the kind of the minimal case is reported), but a
             // panic only shrinks to a panic and vice versa
             match judge(g, &ids, &s, q, langs[0]).kind() {
-                Some(k) => (k == "panic") == (kind == "panic"),
+                Some(k) => class_of(k) == class_of(kind),
                 None => false,
             }
         } else {
@@ -321,12 +366,12 @@ fn case_json(g: &QGraph, q: &Query, langs: &[Lang], kind: &str) -> J {
     })
 }
 
-fn run_graph(gi: usize, g: &QGraph, plan: &Plan) -> Shard {
+fn run_graph(gi: usize, g: &QGraph, plan: &Plan, nqueries: usize) -> Shard {
     let mut sh = Shard::default();
     let (db, ids) = load(g);
     let s = db.session();
     let mut mini = Minimiser { execs: 0 };
-    for (qi, q) in plan.queries.iter().enumerate() {
+    for (qi, q) in plan.queries.iter().enumerate().take(nqueries) {
         let mut judged: Vec<(Lang, Judged)> = vec![];
         for (li, lang) in Lang::ALL.into_iter().enumerate() {
             let Some(text) = &plan.texts[qi][li] else { continue };
@@ -405,16 +450,30 @@ fn run_graph(gi: usize, g: &QGraph, plan: &Plan) -> Shard {
 
 // ---------------------------------------------------------------------------------------------
 
-fn spaces(tier: vcore::Tier) -> (Vec<GraphSpace>, u32) {
+fn nk(labels: &[&'static str], p: Option<i64>, s: Option<&'static str>) -> NodeKind {
+    NodeKind { labels: labels.to_vec(), p, s }
+}
+fn ek(etype: &'static str, w: Option<i64>) -> EdgeKind {
+    EdgeKind { etype, w }
+}
+
+/// The layers of a tier: (graph space, query depth). A graph that belongs to several layers is
+/// run once, with the largest depth.
+fn layers(tier: vcore::Tier) -> Vec<(GraphSpace, u32)> {
+    let kinds4 = vec![nk(&[], None, None), nk(&["A"], Some(1), None), nk(&["A"], Some(2), Some("x")), nk(&["B"], Some(1), None)];
+    let mut kinds5 = kinds4.clone();
+    kinds5.push(nk(&["A", "B"], Some(2), None));
+    let e3 = vec![ek("K", None), ek("L", None), ek("K", Some(1))];
     match tier {
-        vcore::Tier::Quick => (vec![GraphSpace { max_nodes: 2, max_edges: 2, node_kinds: GraphSpace::core_node_kinds(), edge_kinds: GraphSpace::full_edge_kinds() }], 3),
-        vcore::Tier::Thorough => (
-            vec![
-                GraphSpace { max_nodes: 2, max_edges: 2, node_kinds: GraphSpace::full_node_kinds(), edge_kinds: GraphSpace::full_edge_kinds() },
-                GraphSpace { max_nodes: 3, max_edges: 3, node_kinds: GraphSpace::core_node_kinds(), edge_kinds: GraphSpace::plain_edge_kinds() },
-            ],
-            3,
-        ),
+        vcore::Tier::Quick => vec![
+            (GraphSpace { max_nodes: 2, max_edges: 2, node_kinds: kinds5, edge_kinds: e3 }, 2),
+            (GraphSpace { max_nodes: 2, max_edges: 1, node_kinds: kinds4, edge_kinds: vec![ek("K", None), ek("K", Some(1))] }, 3),
+        ],
+        vcore::Tier::Thorough => vec![
+            (GraphSpace { max_nodes: 2, max_edges: 2, node_kinds: GraphSpace::core_node_kinds(), edge_kinds: e3 }, 3),
+            (GraphSpace { max_nodes: 3, max_edges: 3, node_kinds: kinds4, edge_kinds: GraphSpace::plain_edge_kinds() }, 2),
+            (GraphSpace { max_nodes: 2, max_edges: 1, node_kinds: GraphSpace::full_node_kinds(), edge_kinds: GraphSpace::full_edge_kinds() }, 2),
+        ],
     }
 }
 
@@ -500,6 +559,24 @@ fn run(args: vcore::Args) -> i32 {
     if args.rest.iter().any(|a| a == "--probe") {
         return probe();
     }
+    if let Some(i) = args.rest.iter().position(|a| a == "--plan") {
+        // prints the logical plan of a GQL text before and after the optimizer (triage aid)
+        let text = args.rest.get(i + 1).cloned().unwrap_or_default();
+        let g = args.rest.get(i + 2).and_then(|t| QGraph::parse_pretty(t)).unwrap_or_default();
+        let (db, _) = load(&g);
+        match grafeo_engine::query::gql_translator::translate(&text) {
+            Ok(plan) => {
+                println!("TRANSLATED:\n{:#?}", plan.root);
+                let opt = grafeo_engine::query::optimizer::Optimizer::from_store(db.store());
+                match opt.optimize(plan) {
+                    Ok(p) => println!("OPTIMIZED:\n{:#?}", p.root),
+                    Err(e) => println!("optimize: {e}"),
+                }
+            }
+            Err(e) => println!("translate: {e}"),
+        }
+        return 0;
+    }
     if let Some(i) = args.rest.iter().position(|a| a == "--list") {
         let d: u32 = args.rest.get(i + 1).and_then(|s| s.parse().ok()).unwrap_or(2);
         for (w, q) in all_queries_weighted(d) {
@@ -512,32 +589,45 @@ fn run(args: vcore::Args) -> i32 {
     }
     let mut rep = vcore::Report::new("C08", args.tier, "exploration");
     rep.rule = "every graph of the stated graph spaces (one per isomorphism class) x every query of the core grammar up to the stated depth x every front end (GQL, Cypher, Gremlin, GraphQL) that spells it; engine rows compared with the all-bindings reference evaluator (multiset; positional key check under ORDER BY; size + sub-multiset under an unordered window) and between languages; a (query, language) pair is distinct non-trivial when on some graph the reference answer is non-empty and the engine agreed".into();
-    let (gspaces, depth) = spaces(args.tier);
-    let depth = std::env::var("C08_DEPTH").ok().and_then(|s| s.parse().ok()).unwrap_or(depth);
+    let depth_override: Option<u32> = std::env::var("C08_DEPTH").ok().and_then(|s| s.parse().ok());
     let mut graphs: Vec<QGraph> = vec![];
-    let mut seen = BTreeSet::new();
+    let mut gdepth: Vec<u32> = vec![];
+    let mut index: BTreeMap<String, usize> = BTreeMap::new();
     let mut labelled_total = 0u64;
     let mut space_json = vec![];
-    for sp in &gspaces {
+    for (sp, d) in layers(args.tier) {
+        let d = depth_override.unwrap_or(d);
         let (gs, labelled) = sp.enumerate();
         labelled_total += labelled;
+        let classes = gs.len();
         let mut fresh = 0;
         for g in gs {
-            if seen.insert(g.canonical_key()) {
-                graphs.push(g);
-                fresh += 1;
+            match index.get(&g.canonical_key()) {
+                Some(&i) => gdepth[i] = gdepth[i].max(d),
+                None => {
+                    index.insert(g.canonical_key(), graphs.len());
+                    graphs.push(g);
+                    gdepth.push(d);
+                    fresh += 1;
+                }
             }
         }
         let mut j = sp.to_json();
+        j["query_depth"] = json!(d);
         j["labelled_graphs"] = json!(labelled);
-        j["isomorphism_classes_new"] = json!(fresh);
+        j["isomorphism_classes"] = json!(classes);
+        j["isomorphism_classes_not_in_earlier_layers"] = json!(fresh);
         space_json.push(j);
     }
     if let Some(n) = std::env::var("C08_MAX_GRAPHS").ok().and_then(|s| s.parse::<usize>().ok()) {
         graphs.truncate(n);
         rep.exhaustive = false;
     }
-    let queries = all_queries(depth);
+    let depth = gdepth.iter().copied().max().unwrap_or(0);
+    let weighted = all_queries_weighted(depth);
+    // queries are sorted by weight: a graph of depth d runs the prefix of weight <= d
+    let prefix: Vec<usize> = (0..=depth).map(|d| weighted.iter().take_while(|(w, _)| *w <= d).count()).collect();
+    let queries: Vec<Query> = weighted.into_iter().map(|(_, q)| q).collect();
     let texts: Vec<[Option<String>; 4]> = queries.iter().map(|q| [render(q, Lang::Gql), render(q, Lang::Cypher), render(q, Lang::Gremlin), render(q, Lang::GraphQL)]).collect();
     let mut per_lang = [0u64; 4];
     for t in &texts {
@@ -546,7 +636,14 @@ fn run(args: vcore::Args) -> i32 {
         }
     }
     let plan = Plan { queries, texts };
-    let shards = vcore::par_map(&graphs, vcore::cores(), |gi, g| run_graph(gi, g, &plan));
+    // heaviest graphs first so that the parallel map ends evenly (results stay in input order)
+    let mut order: Vec<usize> = (0..graphs.len()).collect();
+    order.sort_by_key(|&i| std::cmp::Reverse((gdepth[i], graphs[i].nodes.len() + graphs[i].edges.len())));
+    let mut shards_by_graph: Vec<Option<Shard>> = (0..graphs.len()).map(|_| None).collect();
+    for (k, sh) in vcore::par_map(&order, vcore::cores(), |_, &gi| run_graph(gi, &graphs[gi], &plan, prefix[gdepth[gi] as usize])).into_iter().enumerate() {
+        shards_by_graph[order[k]] = Some(sh);
+    }
+    let shards: Vec<Shard> = shards_by_graph.into_iter().map(|s| s.unwrap()).collect();
     let mut all = Shard::default();
     for s in shards {
         all.merge(s);
@@ -560,8 +657,8 @@ fn run(args: vcore::Args) -> i32 {
         rep.sample(s);
     }
     rep.set("bounds", json!({
-        "graph_spaces": space_json, "graphs": graphs.len(), "labelled_graphs": labelled_total,
-        "query_depth": depth, "queries": plan.queries.len(),
+        "layers": space_json, "graphs": graphs.len(), "labelled_graphs": labelled_total,
+        "max_query_depth": depth, "queries_by_depth": prefix, "queries": plan.queries.len(),
         "queries_spelled": {"gql": per_lang[0], "cypher": per_lang[1], "gremlin": per_lang[2], "graphql": per_lang[3]},
         "cases_kept_per_signature": CASES_PER_SIG,
     }));
